@@ -2031,3 +2031,63 @@ package gomatrixserverlib
 //@   calls signEvent@root the-hashed-event: eventJSON == ret(addContentHashesToEvent, 0) && signingName == string(root_origin) && keyID == root_keyID && privateKey == root_privateKey && roomVersion == old(eb.version.Version())
 //@   calls EnforcedCanonicalJSON@root under-the-room-versions-number-rules: input == ret(signEvent, 0) && roomVersion == old(eb.version.Version())
 //@   calls NewEventFromTrustedJSON@root the-canonical-signed-json-not-redacted: arg0 == ret(EnforcedCanonicalJSON, 0) && !arg1
+
+// ---------------------------------------------------------------- C10 / C11: state resolution (mechanisms)
+
+// power ("control") events of state resolution v2: power levels and join rules with the empty state key, and
+// leave / ban membership events sent by somebody other than their target
+//@ func isControlEvent
+//@   property C10, C18:safety
+//@   requires e != nil
+//@   ensures exact: result <==> (((e.Type() == "m.room.power_levels" || e.Type() == "m.room.join_rules") && e.StateKeyEquals("")) || (e.Type() == "m.room.member" && e.StateKey() != nil && !e.StateKeyEquals("") && !e.StateKeyEquals(string(e.SenderID())) && jok("MemberContent", e.Content()) && (jmerge(zero("MemberContent"), e.Content()).Membership == "leave" || jmerge(zero("MemberContent"), e.Content()).Membership == "ban")))
+//@   assigns nothing
+
+// the two orderings are total orders that end in a comparison of the event IDs (so the result never depends on input order)
+//@ func sortStateResV2ConflictedPowerLevelHeap
+//@   property C10, C11, C18:safety
+//@   requires a != nil && b != nil
+//@   ensures exact: result == cmpPower(*a, *b)
+//@   ensures lemma-antisymmetric: cmpPower(*a, *b) == 0 - cmpPower(*b, *a)
+//@   ensures lemma-ties-only-between-equal-ids: result == 0 ==> a.eventID == b.eventID
+//@   assigns nothing
+
+//@ func sortStateResV2ConflictedOtherHeap
+//@   property C10, C11, C18:safety
+//@   requires a != nil && b != nil
+//@   ensures exact: result == cmpOther(*a, *b)
+//@   ensures lemma-antisymmetric: cmpOther(*a, *b) == 0 - cmpOther(*b, *a)
+//@   ensures lemma-ties-only-between-equal-ids: result == 0 ==> a.eventID == b.eventID
+//@   assigns nothing
+
+// state resolution v1
+//@ func sortConflictedEventsByDepthAndSHA1
+//@   trusted
+//@   ensures same-number: len(result) == len(events)
+//@   assigns nothing
+//@ func (*stateResolver).addAuthEvent
+//@   trusted
+//@   assigns *r
+//@ func (*stateResolver).removeAuthEvent
+//@   trusted
+//@   assigns *r
+
+//@ func (*stateResolver).resolveAuthBlock
+//@   property C10
+//@   nosafety
+//@   requires r != nil && len(events) >= 1
+//@   ensures picks-from-the-block: exists k int :: 0 <= k && k < len(ret(sortConflictedEventsByDepthAndSHA1)) && result == ret(sortConflictedEventsByDepthAndSHA1)[k].event
+//@   loop 1: invariant 1 <= i && i <= len(block) && result == block[i - 1].event
+
+//@ func (*stateResolver).resolveNormalBlock
+//@   property C10
+//@   nosafety
+//@   requires r != nil && len(events) >= 1
+//@   ensures oldest-or-an-allowed-newer-event: result == ret(sortConflictedEventsByDepthAndSHA1)[0].event || (called(Allowed) && ret(Allowed) == nil && arg(Allowed, 0) == result)
+//@   loop 1: invariant 0 <= i && i < len(block)
+
+//@ func (*stateResolver).resolveAndAddAuthBlocks
+//@   property C10, C11
+//@   nosafety
+//@   requires r != nil
+//@   calls resolveAuthBlock@root before-any-result-of-this-type-is-registered: !called(addAuthEvent)
+//@   loop 1: invariant 0 <= idx(1) && idx(1) <= len(blocks)
